@@ -278,6 +278,15 @@ def main():  # noqa: PLR0912, PLR0915
 
     wall = time.time() - t0
     level = "proof" if (obligations > 0 and obligations == discharged and not undecided and not errors) else "other"
+    # a property whose deciding step is the bounded part (MANIFEST category "other") stays at that level
+    # even when the contracts that exist for it are all discharged: they cover a part, not the claim
+    try:
+        with open(os.path.join(HERE, "MANIFEST.json"), encoding="utf-8") as fd:
+            claimed = {c.get("property_id"): (c.get("level_claimed") or {}).get("category") for c in json.load(fd).get("checks", [])}
+        if claimed.get(prop) == "other":
+            level = "other"
+    except (OSError, ValueError):
+        pass
     evidence = {
         "property_id": prop,
         "tier": tier,
